@@ -26,6 +26,7 @@ type Config struct {
 	Ticker    bool     `json:"ticker,omitempty"`
 	KeepAlive int      `json:"keepalive,omitempty"` // seconds: WithTCPKeepAlive (setsockopt calls on the listener)
 	TickMs    int      `json:"tick_ms,omitempty"`
+	TickAt    []int    `json:"tick_at,omitempty"` // scheduler steps from which the simulated clock may run on by one tick interval (an external event, placed by the scheduler)
 	Strategy  string   `json:"strategy"`
 	Quantum   int      `json:"quantum"`
 	PCTDepth  int      `json:"pct,omitempty"`
